@@ -1076,9 +1076,9 @@ class Translator:
             b, sig = b
             args = self.lower_args(argnodes, sig)
         if '$' in b:
-            t = b.replace('$o', obj or '')
+            t = b.replace('$o', '(%s)' % obj if obj else '')
             for i, a in enumerate(args):
-                t = t.replace('$%d' % i, a)
+                t = t.replace('$%d' % i, '(%s)' % a)
             return t
         allargs = ([obj] if obj is not None else []) + args
         return '%s(%s)' % (b, ', '.join(allargs))
